@@ -152,6 +152,25 @@ void runCase(long long i, Prng& r, const Args& a) {
     LOG.cell("block-diagonal/act+hat+transform/" + GN(), ok ? 0 : 1);
     if (!ok) LOG.viol("not-block-diagonal/act-hat-transform/" + GN(), 1, caseJ(a, i).raw("inputs", c.base.str()).str());
   }
+  // a Jacobian requested alone is the same block-diagonal matrix as when both are requested (outputs pre-filled with NaN)
+  {
+    auto single = [&](const char* n, const MJ& both, const MJ& alone) {
+      bool ok = bitEq(both, alone);
+      LOG.cell(std::string("single-output/") + n + "/" + GN(), ok ? 0 : 1);
+      if (!ok) LOG.viol(std::string("jacobian-requested-alone-differs/") + n + "/" + GN(), 1, caseJ(a, i).raw("inputs", c.base.str()).str());
+    };
+    MJ A, B;
+    A.setConstant(nan); B.setConstant(nan); c.X.compose(c.Y, A, MonG::_); c.X.compose(c.Y, MonG::_, B); single("compose-a", c.Jca, A); single("compose-b", c.Jcb, B);
+    A.setConstant(nan); B.setConstant(nan); c.X.between(c.Y, A, MonG::_); c.X.between(c.Y, MonG::_, B); single("between-a", c.Jba, A); single("between-b", c.Jbb, B);
+    A.setConstant(nan); B.setConstant(nan); c.X.rplus(c.t, A, MonG::_); c.X.rplus(c.t, MonG::_, B); single("rplus-m", c.Jra, A); single("rplus-t", c.Jrb, B);
+    A.setConstant(nan); B.setConstant(nan); c.X.lplus(c.t, A, MonG::_); c.X.lplus(c.t, MonG::_, B); single("lplus-m", c.Jla, A); single("lplus-t", c.Jlb, B);
+    A.setConstant(nan); B.setConstant(nan); c.X.rminus(c.Y, A, MonG::_); c.X.rminus(c.Y, MonG::_, B); single("rminus-a", c.Jma, A); single("rminus-b", c.Jmb, B);
+    A.setConstant(nan); B.setConstant(nan); c.X.lminus(c.Y, A, MonG::_); c.X.lminus(c.Y, MonG::_, B); single("lminus-a", c.Jna, A); single("lminus-b", c.Jnb, B);
+    MJm Am; MJp Ap; Am.setConstant(nan); Ap.setConstant(nan); c.X.act(c.p, Am, tl::optional<Eigen::Ref<MJp>>{}); c.X.act(c.p, tl::optional<Eigen::Ref<MJm>>{}, Ap);
+    bool ok = bitEq(c.Jam, Am) && bitEq(c.Jap, Ap);
+    LOG.cell("single-output/act/" + GN(), ok ? 0 : 1);
+    if (!ok) LOG.viol("jacobian-requested-alone-differs/act/" + GN(), 1, caseJ(a, i).raw("inputs", c.base.str()).str());
+  }
   // vee(hat) round trip through the bundle offsets; Random() is valid element-wise
   { MonT v = MonT::Vee(c.hat); if (!bitEq(v.coeffs(), c.t.coeffs())) LOG.viol("vee-of-hat/" + GN(), 1, caseJ(a, i).raw("inputs", c.base.str()).str()); }
   { MonG R = MonG::Random(); double nd = (double)normDev(g, R.coeffs()); LOG.cell("random-valid/" + GN(), nd); if (!(nd < Sc<MonS>::eps())) LOG.viol("random-invalid/" + GN(), nd, J().vec("R", R.coeffs()).str()); }
